@@ -180,4 +180,75 @@ theorem MTree.den_eval (t : MTree) :
       have := Option.some.inj ihr
       rw [this, stAdd_foldl]
 
+
+/-! ## well-formed / reachable states -/
+
+variable {α : Type} [DecidableEq α]
+
+/-- a state of the shape accumulators of configuration `cfg` have: one `MeanState` per metric,
+every total a vector over the Ks -/
+def WF (cfg : Config) (s : State) : Prop :=
+  s.length = cfg.metrics.length ∧ ∀ c ∈ s, c.total.length = cfg.nk
+
+/-- states reachable through the API: fresh, after `add`, after `merge` -/
+inductive Reachable (cfg : Config) : State → Prop where
+  | fresh : Reachable cfg (emptyState cfg)
+  | add {s : State} (rows : List (Row α)) : Reachable cfg s → Reachable cfg (mergeState s (ofBatch cfg rows))
+  | merge {s t : State} : Reachable cfg s → Reachable cfg t → Reachable cfg (mergeState s t)
+
+theorem wf_empty (cfg : Config) : WF cfg (emptyState cfg) := by
+  simp [WF, emptyState]
+
+theorem wf_ofBatch (cfg : Config) (rows : List (Row α)) : WF cfg (ofBatch cfg rows) := by
+  constructor
+  · simp [ofBatch, batchVals]
+  · intro c hc
+    simp only [ofBatch, batchVals, List.map_map, List.mem_map, List.mem_range] at hc
+    obtain ⟨j, hj, rfl⟩ := hc
+    simp only [Function.comp, MeanCell.new]
+    apply foldl_vecAdd_length
+    · simp
+    · intro b hb
+      obtain ⟨r, _, rfl⟩ := List.mem_map.mp hb
+      show ((rowVals cfg (cfg.width rows) r).getD j []).length = cfg.nk
+      unfold rowVals
+      simp only []
+      rw [List.getD_eq_getElem?_getD, List.getElem?_map, List.getElem?_eq_getElem hj]
+      simp [rowKs_length]
+
+theorem wf_merge (cfg : Config) (a b : State) (ha : WF cfg a) (hb : WF cfg b) :
+    WF cfg (mergeState a b) := by
+  constructor
+  · simp [mergeState, ha.1, hb.1]
+  · intro c hc
+    simp only [mergeState] at hc
+    obtain ⟨i, hi, rfl⟩ := List.mem_iff_getElem.mp hc
+    simp only [List.getElem_zipWith, MeanCell.merge, vecAdd_length]
+    rw [ha.2 _ (List.getElem_mem _), hb.2 _ (List.getElem_mem _)]
+    omega
+
+
+theorem zipWith_replicate_left {β : Type} (f : β → β → β) (e : β) (s : List β) (n : Nat)
+    (hn : s.length = n) (h : ∀ c ∈ s, f e c = c) : List.zipWith f (List.replicate n e) s = s := by
+  induction s generalizing n with
+  | nil => simp
+  | cons x xs ih =>
+    cases n with
+    | zero => simp at hn
+    | succ n =>
+      simp only [List.replicate_succ, List.zipWith_cons_cons]
+      rw [h x (by simp), ih n (by simpa using hn) (fun c hc => h c (by simp [hc]))]
+
+theorem zipWith_replicate_right {β : Type} (f : β → β → β) (e : β) (s : List β) (n : Nat)
+    (hn : s.length = n) (h : ∀ c ∈ s, f c e = c) : List.zipWith f s (List.replicate n e) = s := by
+  induction s generalizing n with
+  | nil => simp
+  | cons x xs ih =>
+    cases n with
+    | zero => simp at hn
+    | succ n =>
+      simp only [List.replicate_succ, List.zipWith_cons_cons]
+      rw [h x (by simp), ih n (by simpa using hn) (fun c hc => h c (by simp [hc]))]
+
+
 end MlModel.Agg.Retrieval
